@@ -85,7 +85,7 @@ def handlesValid (p : P) : Op → Bool
   | .sameSample t => decide (t < p.threads.length)
   | .allocSample t stack => decide (t < p.threads.length) && p.optStackOk stack
   | .markerType _ cat _ => decide (cat < p.cats.length)
-  | .marker t ty name strs =>
+  | .marker t ty name strs _ =>
     decide (t < p.threads.length) && p.strOk name && strs.all p.strOk &&
       (match p.schemaOf ty with
        | some fields => decide (strs.length = (fields.filter (· ≠ .n)).length)
